@@ -53,6 +53,7 @@ def hookTrace : Ty → Val → List Hook
   | .str, .bytes bs => bulkHooks 1 bs.length
   | .bytes, .bytes bs => bulkHooks 1 bs.length
   | .box sz t, v => .desc :: .alloc sz :: (hookTrace t v ++ [.asc])
+  | .wrap t, v => .desc :: (hookTrace t v ++ [.asc])
   | .range t, .seq [a, b] => hookTrace t a ++ hookTrace t b
   | .bitseq store _, .bits bs => bulkHooks store.size (elts (8 * store.size) bs.length)
   | .enum idxs ts, .variant idx v => hookTraceVariant idxs ts idx v
@@ -109,6 +110,7 @@ def payload : Ty → Val → Nat
   | .str, .bytes bs => bs.length
   | .bytes, .bytes bs => bs.length
   | .box sz t, v => sz + payload t v
+  | .wrap t, v => payload t v
   | .range t, .seq [a, b] => payload t a + payload t b
   | .bitseq store _, .bits bs => elts (8 * store.size) bs.length * store.size
   | .enum idxs ts, .variant idx v => payloadVariant idxs ts idx v
@@ -148,6 +150,7 @@ def nesting : Ty → Val → Nat
     | .vec | .deque | .heap => vecNesting t (maxNat (vs.map (nesting t)))
     | _ => 1 + maxNat (vs.map (nesting t))
   | .box _ t, v => 1 + nesting t v
+  | .wrap t, v => 1 + nesting t v
   | .range t, .seq [a, b] => max (nesting t a) (nesting t b)
   | .enum idxs ts, .variant idx v => nestingVariant idxs ts idx v
   | _, _ => 0
